@@ -48,6 +48,13 @@ def writable : List String → Val → Bool
 def padSet (xs : List Val) (i : Nat) (v : Val) : List Val :=
   if i < xs.length then xs.set i v else xs ++ List.replicate (i - xs.length) .null ++ [v]
 
+/-- `$addToSet` of one value: appended at the end unless an equal element is there -/
+def addOne (xs : List Val) (v : Val) : List Val := if pyIn v xs then xs else xs ++ [v]
+
+/-- `$addToSet` with `$each`: the listed values are added one after the other, so a value listed
+    twice is added once -/
+def addAll (xs es : List Val) : List Val := es.foldl addOne xs
+
 /-- the first component of a dotted field name -/
 def headOf (field : String) : String := (splitDots field).headD ""
 
